@@ -17,13 +17,27 @@ OkC15(o) ==
     /\ o.used_exact
     /\ o.used_rto = (IF o.dn > 0 THEN o.cfg_rto ELSE o.est_rto)
 
+\* "tiny" records: first sample s1 (1 ns .. 1 us, not zero), second sample s2, then the RTO of the third
+\* request against RFC 6298 in nanoseconds (integer arithmetic; tolerance 1e-5 relative + 1 us + 8 ns)
+Abs(x) == IF x >= 0 THEN x ELSE -x
+OkTiny(o) ==
+    LET srtt1 == o.s1_ns
+        var1 == o.s1_ns \div 2
+        var2 == (3 * var1 + Abs(srtt1 - o.s2_ns)) \div 4
+        srtt2 == (7 * srtt1 + o.s2_ns) \div 8
+        k == 4 * var2
+        ref == srtt2 + (IF k > o.gran_ns THEN k ELSE o.gran_ns)
+    IN /\ o.sampled
+       /\ Abs(o.used_rto_ns - ref) <= (ref \div 100000) + 1008
+Ok(o) == IF o.op = "tiny" THEN OkTiny(o) ELSE OkC15(o)
+
 VARIABLES l, nbad
 vars == <<l, nbad>>
 TInit == l = 1 /\ nbad = 0
 TNext ==
     /\ l <= Len(Rec)
     /\ l' = l + 1
-    /\ IF OkC15(Rec[l]) THEN nbad' = nbad
+    /\ IF Ok(Rec[l]) THEN nbad' = nbad
        ELSE PrintT(<<"BAD", "C15", l, Rec[l].tr>>) /\ nbad' = nbad + 1
 TSpec == TInit /\ [][TNext]_vars
 Accepted == /\ PrintT(<<"CONSUMED", TLCGet("stats").diameter - 1, Len(Rec)>>)
